@@ -564,4 +564,31 @@ theorem deframeAll_framed_append : ∀ (ps : List (Hdr × Bytes × Bytes)) (fuel
     rw [deframeAll, hd]
     simp only [ih]
 
+/-! ## fixed-length emitter -/
+
+theorem fixD17c_on : Gen.fixD17cFixedGeneratorHonoursLength = 1 := by decide
+
+/-- whatever the source yields: when the fixed-length generator ends cleanly, what it wrote is one
+legal packet whose body is the literal header followed by exactly the source's octets -/
+theorem fixedGen_legal (lit : Bytes) (n : Nat) (src out rest : Bytes)
+    (hn : lit.length + n < 4294967296) (h : fixedGen lit n src = some out) :
+    src.length = n ∧
+    deframe (out ++ rest) = .ok ({ newFormat := true, tag := 11, len := .fixed (lit ++ src).length }, lit ++ src, rest) := by
+  simp only [fixedGen, fixedGenWith, fixD17c_on, decide_true, if_true] at h
+  split at h
+  · rename_i hlen
+    injection h with h; subst h
+    refine ⟨hlen, ?_⟩
+    have hb : (lit ++ src).length < 4294967296 := by simp [hlen]; omega
+    have := deframe_fixed true 11 (by decide) (lit ++ src) rest hb
+    simpa [List.length_append, hlen, List.append_assoc] using this
+  · simp at h
+
+/-- regression witness (D17c): before the repair a source that yields more than announced was
+written as a packet followed by unframed octets -/
+theorem fixedGen_prefix_witness :
+    fixedGenWith false [98, 0, 0, 0, 0, 0] 0 [1, 2, 3] = some [0xCB, 6, 98, 0, 0, 0, 0, 0, 1, 2, 3] ∧
+    fixedGenWith true [98, 0, 0, 0, 0, 0] 0 [1, 2, 3] = none ∧
+    fixedGenWith true [98, 0, 0, 0, 0, 0] 3 [1, 2, 3] = some [0xCB, 9, 98, 0, 0, 0, 0, 0, 1, 2, 3] := by decide
+
 end Rpgp
